@@ -311,7 +311,7 @@ theorem idiv_mul_add_mod_partial (h64 : U128.Divlu64Spec) (h128 : U128.Div128Spe
   obtain ⟨q, r, e, hq, hr⟩ := idivMod_spec_partial h64 h128 hbin a n h
   refine ⟨q, r, e, ?_⟩
   have hra := I128.toInt_range a
-  have key := Int.tdiv_add_tmod a.toInt n.toInt
+  have key := Int.tdiv_mul_add_tmod a.toInt n.toInt
   rw [hq, hr]
   generalize a.toInt.tdiv n.toInt = d at *
   generalize a.toInt.tmod n.toInt = m at *
@@ -321,8 +321,7 @@ theorem idiv_mul_add_mod_partial (h64 : U128.Divlu64Spec) (h128 : U128.Div128Spe
   obtain ⟨k, hk⟩ := e2
   rw [hk]
   have : (d + k * 2 ^ 128) * n.toInt + m = a.toInt + (k * n.toInt) * 2^128 := by
-    rw [← key, Int.add_mul, Int.mul_comm n.toInt d]
-    rw [Int.mul_assoc, Int.mul_comm (2^128) n.toInt, ← Int.mul_assoc]
+    rw [← key, Int.add_mul, Int.mul_assoc k, Int.mul_comm (2^128) n.toInt, ← Int.mul_assoc k]
     omega
   rw [this]
   generalize k * n.toInt = j
